@@ -114,6 +114,13 @@ def gen_base(rng, opts):
             params.append({"rows": rng.choice([1, 1, 2]), "cols": 1, "grid": g})
         if rng.random() < opts.get("p_var", 0.35):
             vars_.append({"rows": rng.choice([1, 1, 2]), "cols": 1, "grid": g})
+        if g == "":
+            # sometimes a second global parameter / variable (concatenations of symbols in set_value,
+            # set_initial and to_function arguments need two of them)
+            if params and rng.random() < opts.get("p_param2", 0.3):
+                params.append({"rows": rng.choice([1, 2]), "cols": 1, "grid": ""})
+            if vars_ and rng.random() < opts.get("p_var2", 0.25):
+                vars_.append({"rows": rng.choice([1, 2]), "cols": 1, "grid": ""})
     # declaration order is not tied to the grid kind (rockit keeps one table per kind)
     rng.shuffle(params)
     rng.shuffle(vars_)
